@@ -42,7 +42,7 @@ struct Shared {
 /// honest RFC 7440 downloading client (peer of send_file)
 struct ClientPeer {
     sh: Arc<Mutex<Shared>>,
-    st: Mutex<ClientState>,
+    st: Arc<Mutex<ClientState>>,
 }
 struct ClientState {
     seen: usize,         // emitted datagrams already looked at
@@ -208,13 +208,12 @@ fn download(dir: &PathBuf, len: usize, ws: u16, rep: u8, fault: Fault, verdict: 
     let sh = Arc::new(Mutex::new(Shared { emitted: Vec::new(), after_reply: Vec::new() }));
     let peer = ClientPeer {
         sh: sh.clone(),
-        st: Mutex::new(ClientState {
+        st: Arc::new(Mutex::new(ClientState {
             seen: 0, expected: 1, in_window: 0, ws, got: Vec::new(), done: false, pending: VecDeque::new(), fault: fault.clone(),
             replies: 0, emitted_cnt: 0, last_ack: None, last_reply: "start".into(), emitted_at_last_recv: 0, recv_calls: 0,
-        }),
+        })),
     };
-    let stref: *const ClientPeer = &peer;
-    let _ = stref;
+    let peer_state = peer.st.clone();
     let boxed = Box::new(peer);
     // keep a second handle on the client state through the shared log only; final state is read from the log
     let w = Worker::new(boxed, path.clone(), true, BLK, TMO, ws, rep);
@@ -298,7 +297,12 @@ fn download(dir: &PathBuf, len: usize, ws: u16, rep: u8, fault: Fault, verdict: 
             verdict.violations.push(("C08", format!("{ctx}: {} DATA datagrams for {} blocks although no datagram was lost: blocks were sent again after they had been acknowledged", n_data, nblocks)));
         }
     }
-    // C04 / C07: with a conformant peer and a single fault the transfer must have delivered the whole file
+    // C04 / C07: with a conformant peer and a single fault the transfer must have delivered the whole file - to the PEER: what it
+    // accepted in sequence (datagrams lost on the way do not count), not merely what the sender put on the wire
+    let (peer_got, peer_done) = { let st = peer_state.lock().unwrap(); (st.got.clone(), st.done) };
+    if peer_got != data || !peer_done {
+        verdict.violations.push(("C04", format!("{ctx}: the sender ended but the peer holds {} of {} bytes (it {} the final block)", peer_got.len(), len, if peer_done { "has" } else { "never received" })));
+    }
     if expected != nblocks + 1 || client_copy != data {
         verdict.violations.push(("C04", format!("{ctx}: transfer did not deliver the file (client has {} of {} blocks)", expected - 1, nblocks)));
         if rep > 1 && fault == Fault::None {
